@@ -218,6 +218,26 @@ def profile_eval_oracle(ctx, what, f, arrays, linear, args):
     if abs(twice[0] - single[0]) > 1e-12 or abs(twice[1] - single[0]) > 1e-12:
         ctx.violate(what + ": a repeated time in a list evaluates differently", "profile.__call__", args,
                     expected=single[0], got=twice[:2], t=ts[0])
+    # times in an order whose sorting permutation is not its own inverse (a rotation)
+    rot = ts[2:] + ts[:2]
+    try:
+        got = [float(v) for v in f(rot)]
+    except Exception as e:      # noqa
+        got = repr(e)
+    want = single[2:] + single[:2]
+    if got != want and not (isinstance(got, list) and all(abs(a_ - b_) <= 1e-12 for a_, b_ in zip(got, want))):
+        ctx.violate(what + ": a rotated list of times is not evaluated entry by entry", "profile.__call__", args,
+                    expected=want[:4], got=got if isinstance(got, str) else got[:4])
+    # the returned profile is an independent object: scaling a copy of it leaves it as it was
+    try:
+        w = f.copy()
+        w.mul_scalar(0.25)
+        after = [float(f(t)) for t in ts[:6]]
+    except Exception as e:      # noqa
+        after = repr(e)
+    if after != single[:6]:
+        ctx.violate(what + ": the profile changed when a copy of it was scaled", "profile.copy/mul_scalar", args,
+                    expected=single[:6], got=after)
 
 
 
@@ -842,6 +862,8 @@ def c06(ctx):
         rx = [Nat(i) for i in r.sample(range(n), r.randint(2, n))]
         rx = rx + [r.choice(rx)]
         r.shuffle(rx)
+        if r.random() < 0.4:
+            rx = rx[:2] + rx[:2] + rx[2:]          # the same ordered pair twice, e.g. [0, 1, 0, 1]
         cases += [(60, [False, m, TL, rx]), (61, [False, m, ri, TL, rx]), (62, [False, mt, m, TL, rx]),
                   (64, [False, m, None, TL, rx]), (65, [False, m, ri, None, TL, rx]), (66, [False, mt, m, None, TL, rx]),
                   (67, [False, m, None, TL, rx]), (68, [False, m, ri, None, TL, rx]), (69, [False, mt, m, None, TL, rx])]
@@ -1313,7 +1335,9 @@ def jitter(xs, r):
     moved = False
     for k in range(1, len(out) - 1):
         if r.random() < 0.7:
-            out[k] = out[k] + r.choice([-1, 1]) * Fr(1, 2 ** 20)
+            # 2^-20, or one unit in the last place of a number in [1/8, 1) (2^-55 .. 2^-53: the next binary64 number)
+            d = Fr(1, 2 ** 20) if r.random() < 0.6 else Fr(1, 2 ** (55 - (2 if out[k] >= Fr(1, 2) else 1 if out[k] >= Fr(1, 4) else 0)))
+            out[k] = out[k] + (r.choice([-1, 1]) if d > Fr(1, 2 ** 30) else 1) * d
             moved = True
     if not moved and len(out) > 2:
         out[1] = out[1] + Fr(1, 2 ** 20)
@@ -1346,11 +1370,18 @@ def c09(ctx):
     ctx.corr(cases, lambda rid, a: len(a[0]) + len(a[-2 if rid == 20 else -3]) >= 5)
     # nearly equal grids (same number of breakpoints, interior points 2^-20 apart): every breakpoint of
     # both operands must survive, with its own values
+    def ulps(xs, n_):
+        # every interior point n_ units in the last place further right (binary64 neighbours of the grid points)
+        return [xs[0]] + [x_ + n_ * Fr(1, 2 ** (55 - (2 if x_ >= Fr(1, 2) else 1 if x_ >= Fr(1, 4) else 0))) for x_ in xs[1:-1]] + [xs[-1]]
     near = []
     for xa, _ in all_bp_pairs(ctx)[:ctx.n(600 if ctx.tier == "quick" else 6000)]:
         if len(xa) < 3:
             continue
-        xb = jitter(xa, r)
+        if r.random() < 0.3:
+            # consecutive binary64 numbers as breakpoints of the two operands (the lower one with an odd last bit)
+            xa, xb = ulps(xa, 1), ulps(xa, 2)
+        else:
+            xb = jitter(xa, r)
         near += [(20, [xa, vals(r, len(xa) - 1), xb, vals(r, len(xa) - 1)]),
                  (21, [xa, vals(r, len(xa) - 1), vals(r, len(xa) - 1), xb, vals(r, len(xa) - 1), vals(r, len(xa) - 1)])]
     spec_vs_impl(ctx, [(120, c[1], 20, c[1]) for c in near if c[0] == 20], "pwc add == pointwise-sum spec (nearly equal grids)")
@@ -2097,9 +2128,13 @@ def c13(ctx):
                   lambda: ps.isi_lengths.default_thresh(sts), lambda: sts[0].get_spikes_non_empty(),
                   lambda: ps.isi_distance_matrix(sts, MRTS='auto'), lambda: ps.spike_sync_matrix(sts, MRTS='auto')]
         ids = [id(s.spikes) for s in sts]
+        members = list(sts)
         for k, c in enumerate(calls):
             core.call_impl(c)
             ctx.check()
+            if len(sts) != len(members) or any(a_ is not b_ for a_, b_ in zip(sts, members)):
+                ctx.violate("call #%d replaced members of the caller's list of trains" % k, "api", [ML, Nat(k)])
+                sts[:] = members
             for s, (sp, a, b), i0 in zip(sts, snap, ids):
                 if not (np.array_equal(s.spikes, sp) and s.t_start == a and s.t_end == b):
                     ctx.violate("call #%d modified its input trains" % k, "api", [ML, Nat(k)])
@@ -2201,6 +2236,22 @@ def c14(ctx):
                     ctx.violate("matrix entry != two-train call with the same keywords", name,
                                 [name, L, [Nat(x) for x in sel], m, mt, ri, iv], expected=d,
                                 got=None if isinstance(mm, core.Err) else mm[a_][b_])
+        # a sequence of three averaging windows is honoured by every call form
+        pts_ = sorted(r.sample(range(0, 17), 6))
+        wins = [(float(kk * Fr(pts_[2 * w_], 16) + cc), float(kk * Fr(pts_[2 * w_ + 1], 16) + cc)) for w_ in range(3)]
+        for name, fn, fp, kw in (("isi_distance", ps.isi_distance, ps.isi_profile, k2), ("spike_distance", ps.spike_distance, ps.spike_profile, kS),
+                                 ("spike_sync", ps.spike_sync, ps.spike_sync_profile, kT)):
+            q = ctx.impl._quiet
+            two = core.call_impl(lambda: q(lambda: float(fn(sts[i], sts[j], interval=wins, **kw))))
+            lst = core.call_impl(lambda: q(lambda: float(fn([sts[i], sts[j]], interval=wins, **kw))))
+            idx = core.call_impl(lambda: q(lambda: float(fn(sts, indices=[i, j], interval=wins, **kw))))
+            prf = core.call_impl(lambda: q(lambda: float(fp(sts[i], sts[j], **kw).avrg(wins))))
+            full = core.call_impl(lambda: q(lambda: float(fn(sts, interval=wins, **kw))))
+            pfull = core.call_impl(lambda: q(lambda: float(fp(sts, **kw).avrg(wins))))
+            ctx.check(2)
+            if not (feq(two, lst) and feq(two, idx) and feq(two, prf) and feq(full, pfull)):
+                ctx.violate("a list of three averaging windows is not honoured identically by all call forms / the profile",
+                            name, [name, L, Nat(i), Nat(j), repr(wins), m, mt, ri], expected=[prf, pfull], got=[two, lst, idx, full])
         # MRTS='auto' through index selections
         for name, fn in (("isi_distance", ps.isi_distance), ("spike_sync", ps.spike_sync)):
             sub = core.call_impl(lambda: fn([sts[x] for x in sel], MRTS='auto'))
@@ -2330,6 +2381,8 @@ def c15(ctx):
     lists, g = ctx.space.random_lists(n=200 if ctx.tier == "quick" else 3000)
     lists = ctx.part(lists)
     for L in lists:
+        if r.random() < 0.3:
+            L = list(L) + [list(r.choice(L))]          # a repeated trial / two equal channels
         sts = ctx.impl.trains([T(t) for t in L])
         ctx.nontrivial(("c15m", core.enc(L)))
         auto = float(default_thresh(sts))
@@ -2666,6 +2719,16 @@ def c17(ctx):
             ctx.violate("a higher threshold keeps a spike the lower one removed", "filter_by_spike_sync",
                         [False, mt, m, [thr, thr2], TL], expected=kept, got=k2)
     stale_state_oracle(ctx, ["filter_by_spike_sync", "spike_sync_profile"], 30, 300)
+    # many trains: a spike coincident with k of the N-1 others is removed at threshold k/(N-1) itself (strict), for
+    # N-1 = 9, 18, 6 as well (thresholds 1, 1/2 that are attained exactly)
+    big = []
+    for nn, kk_ in ((10, 9), (19, 9), (7, 3), (7, 6)):
+        base = sorted(set(Fr(r.randint(1, 15), 16) for _ in range(3)))
+        other = [x + Fr(1, 4) if x < Fr(1, 2) else x - Fr(1, 4) for x in base]
+        TLn = [T(base)] * (kk_ + 1) + [T(sorted(set(other)))] * (nn - kk_ - 1)
+        for thr in (Fr(kk_, nn - 1), Fr(1, 2), Fr(1)):
+            big.append((70, [False, Z, Z, thr, TLn]))
+    ctx.corr(big if ctx.shard == 0 else [], lambda rid, a: True)
     # MRTS='auto' in the filter is ONE threshold pooled over the list (as in the multivariate profile it is compared with)
     from pyspike.isi_lengths import default_thresh
     al, g3 = ctx.space.random_lists(n=120 if ctx.tier == "quick" else 1500)
@@ -2915,6 +2978,13 @@ def c19(ctx):
                     ok = ok and all(_sig_equal(x, y, prec) for x, y in zip(t, b.spikes.tolist()))
             if not ok:
                 ctx.violate("spike times changed by the round trip", "save/load", desc, got=[b.spikes.tolist() for b in back])
+            if it % 97 == 5:
+                long_t = sorted(r.uniform(0, 100) * scale for _ in range(r.choice([1001, 1500])))
+                ps.save_spike_trains_to_txt([ps.SpikeTrain(np.array(long_t), edges)], fn, separator=sep, precision=17)
+                bl = core.call_impl(lambda: ps.load_spike_trains_from_txt(fn, edges, separator=sep)[0].spikes.tolist())
+                if bl != long_t:
+                    ctx.violate("a train with more than 1000 spikes does not survive the text round trip", "save/load",
+                                repr((len(long_t), sep)), got=bl if isinstance(bl, core.Err) else len(bl))
             ne = [t for t in trains if t]
             if len(back_ne) != len(ne) or any(len(t) != len(b.spikes) for t, b in zip(ne, back_ne)):
                 ctx.violate("ignore_empty_lines=True does not drop exactly the empty trains", "save/load", desc,
@@ -3049,6 +3119,30 @@ def c20(ctx):
             if isinstance(p, core.Err) or len(p[0]) != nb + 1 or p[0][0] != ts or p[0][-1] != te or sum(p[1]) != len(inside):
                 ctx.violate("psth: bins are not those of the first train's interval / a spike inside it is lost", "psth",
                             [TLx, Nat(nb)], expected=[ts, te, len(inside)], got=p)
+    # spikes exactly ON the bin edges (as psth computes them, for bin sizes that are not binary fractions): an edge
+    # belongs to the bin it opens, the last edge to the last bin
+    for _ in range(ctx.n(60 if ctx.tier == "quick" else 600)):
+        ts_, te_ = r.choice([(0.0, 7.0), (1.0, 2.0), (0.0, 10.0), (-3.0, 4.0)])
+        bs = r.choice([0.7, 0.2, 0.1, 0.35, 1.4])
+        nbq = int((te_ - ts_) / bs)
+        if nbq < 1:
+            continue
+        eds = np.linspace(ts_, te_, nbq + 1)
+        on = sorted(set(float(eds[k_]) for k_ in r.sample(range(nbq + 1), min(nbq + 1, r.randint(1, 6)))))
+        stq = [ps.SpikeTrain(np.array(on), (ts_, te_)), ps.SpikeTrain(np.array(on[:1]), (ts_, te_))]
+        p = core.call_impl(lambda: ps.psth(stq, bs))
+        ctx.check()
+        ctx.nontrivial(("c20edge", ts_, te_, bs, repr(on)))
+        allq = on + on[:1]
+        if isinstance(p, core.Err):
+            ctx.violate("psth raises", "psth", repr((ts_, te_, bs, on)), got=p)
+            continue
+        xs, ys = p
+        want = [sum(1 for x in allq if xs[k_] <= x and (x < xs[k_ + 1] or (k_ == len(ys) - 1 and x <= xs[k_ + 1])))
+                for k_ in range(len(ys))]
+        if list(ys) != [float(w_) for w_ in want]:
+            ctx.violate("psth: a spike exactly on a bin edge is counted in the wrong bin", "psth", repr((ts_, te_, bs, on)),
+                        expected=want, got=ys)
     ctx.corr(cases, lambda rid, a: True, functional=True)
     ctx.corr_values("psth", 92, psth_items, functional=True)
     # Poisson generator with recorded draws against the model (cumulative sums below T_end)
@@ -3081,11 +3175,12 @@ def c20(ctx):
     for it in range(ctx.n(300 if ctx.tier == "quick" else 4000)):
         np.random.seed((ctx.seed + 7919 * it + ctx.shard) % (2 ** 31))
         rate = r.choice([0.05, 0.5, 1.0, 5.0, 20.0])
-        iv = r.choice([(0.0, 10.0), (5.0, 6.0), 10.0, (-3.0, 3.0), (100.0, 100.5)])
+        iv = r.choice([(0.0, 10.0), (5.0, 6.0), 10.0, (-3.0, 3.0), (100.0, 100.5), np.float64(10.0), np.int64(7), [2.0, 4.0],
+                       np.array([1.0, 9.0]), np.array(10.0).max()])
         st = core.call_impl(lambda: ps.generate_poisson_spikes(rate, iv))
         ctx.check()
         ctx.nontrivial(("c20p", it, ctx.shard))
-        t0, t1 = (0.0, iv) if isinstance(iv, float) else iv
+        t0, t1 = (0.0, float(iv)) if np.ndim(iv) == 0 else (float(iv[0]), float(iv[1]))
         if isinstance(st, core.Err) or st[1:] != [t0, t1] or st[0] != sorted(st[0]) or \
                 any(not (t0 <= x < t1) for x in st[0]):
             ctx.violate("Poisson train not sorted / outside the interval / wrong edges", "generate_poisson_spikes",
